@@ -7,6 +7,7 @@ CONSTANTS
   MaxRetries = 2
   DeadlineFails = TRUE
   AsImplemented = TRUE
+  OrphanMetaKept = FALSE
   CorruptIgnoresMeta = FALSE
   MayRelease = TRUE
 INVARIANTS Probe
